@@ -221,7 +221,7 @@ Proof. intros hs st k t H. unfold sched_time. rewrite H. reflexivity. Qed.
 Lemma hrel_do_act : forall cfg a hs st hs' lh st' l, hrel hs st ->
   h_do_act cfg hs a = (hs', lh) -> do_act cfg st a = (st', l) -> hrel hs' st' /\ lh = l.
 Proof.
-  intros cfg a hs st hs' lh st' l HR Hh Hs. destruct a as [k t p tag h body|tag|h];
+  intros cfg a hs st hs' lh st' l HR Hh Hs. destruct a as [k t p tag h body|tag|h|];
     cbn [h_do_act do_act] in Hh, Hs.
   - destruct (h_do_sched cfg hs k t p tag h body) as [hs1 rch] eqn:E1.
     destruct (do_sched cfg st k t p tag h body) as [st1 rc] eqn:E2.
@@ -230,6 +230,7 @@ Proof.
     split; [exact HR'|]. rewrite (sched_time_eq hs st k t (hrel_time _ _ HR)). reflexivity.
   - inversion Hh; inversion Hs; subst. split; [apply hrel_do_cancel; exact HR|reflexivity].
   - inversion Hh; inversion Hs; subst. split; [apply hrel_do_drop; exact HR|reflexivity].
+  - inversion Hh; inversion Hs; subst. split; [exact HR|reflexivity].
 Qed.
 
 Lemma hrel_do_acts : forall cfg acts hs st hs' lh st' l, hrel hs st ->
@@ -240,10 +241,12 @@ Proof.
   - inversion Hh; inversion Hs; subst. split; [exact HR|reflexivity].
   - destruct (h_do_act cfg hs a) as [hs1 lh1] eqn:E1.
     destruct (do_act cfg st a) as [st1 l1] eqn:E2.
+    destruct (hrel_do_act _ _ _ _ _ _ _ _ HR E1 E2) as [HR1 ->].
+    destruct (has_raise l1) eqn:Hr.
+    { inversion Hh; inversion Hs; subst. split; [exact HR1|reflexivity]. }
     destruct (h_do_acts cfg hs1 r) as [hs2 lh2] eqn:E3.
     destruct (do_acts cfg st1 r) as [st2 l2] eqn:E4.
     inversion Hh; inversion Hs; subst.
-    destruct (hrel_do_act _ _ _ _ _ _ _ _ HR E1 E2) as [HR1 ->].
     destruct (IH _ _ _ _ _ _ HR1 E3 E4) as [HR2 ->].
     split; [exact HR2|reflexivity].
 Qed.
@@ -347,10 +350,12 @@ Proof.
       destruct (Z.leb_spec (e_time e) endt).
       * destruct (h_exec_event cfg (set_events hs hrest) e) as [hs1 lh1] eqn:E1.
         destruct (exec_event cfg (set_events st rest) e) as [st1 l1] eqn:E2.
+        destruct (hrel_exec_event_at _ _ _ _ _ _ _ _ (hrel_pop _ _ _ _ _ HR Ep Hr) E1 E2) as [HR1 ->].
+        destruct (has_raise l1) eqn:Hrs.
+        { inversion Hh; inversion Hs; subst. auto. }
         destruct (h_run_loop cfg n endt hs1) as [[hs2 lh2] okh2] eqn:E3.
         destruct (run_loop cfg n endt st1) as [[st2 l2] ok2] eqn:E4.
         inversion Hh; inversion Hs; subst.
-        destruct (hrel_exec_event_at _ _ _ _ _ _ _ _ (hrel_pop _ _ _ _ _ HR Ep Hr) E1 E2) as [HR1 ->].
         destruct (IH _ _ _ _ _ _ _ _ HR1 E3 E4) as (HR2 & -> & ->). auto.
       * inversion Hh; inversion Hs; subst. split; [|auto].
         destruct (inv_stop _ _ _ endt (hrel_inv _ _ HR) Ep) as [Hi _]; [assumption|].
